@@ -47,7 +47,9 @@ class Ctx:
         self.tier = tier
         self.seed = seed
         self.t0 = time.time()
-        self.work = os.path.join(ROOT, "work", prop)
+        # development aid (VERIF_REPO, see build_vh): separate work directory, evidence kept out of evidence/
+        self.dev = bool(os.environ.get("VERIF_REPO"))
+        self.work = os.path.join(ROOT, "work", ("dev_" if self.dev else "") + prop)
         shutil.rmtree(self.work, ignore_errors=True)
         os.makedirs(self.work)
         self.specdir = os.path.join(self.work, "spec")
@@ -364,7 +366,7 @@ class Ctx:
                   assumptions=self.assumptions, wall_s=round(time.time() - self.t0, 1),
                   violations=len(self.violations), known_findings=self.known)
         os.makedirs(os.path.join(ROOT, "evidence"), exist_ok=True)
-        with open(os.path.join(ROOT, "evidence", self.prop + ".json"), "w") as f:
+        with open(os.path.join(self.work if self.dev else os.path.join(ROOT, "evidence"), self.prop + ".json"), "w") as f:
             json.dump(ev, f, indent=1, default=str)
         for k in self.known:
             print("KNOWN-FINDING: property=%s %s" % (self.prop, k))
